@@ -169,10 +169,14 @@ type prngCase struct {
 	Reads    []int
 	FailAt   int    // index of the entropy-source call that misbehaves; -1 = never
 	FailKind string // see faultKinds
+	// memory flavours, see mem_test.go; Read number i of 0 bytes uses zero-length flavour (i+PersZ)%3
+	Scribble bool
+	Spare    bool
+	PersZ    int
 }
 
 func (c prngCase) Key() string {
-	return fmt.Sprintf("%s/%v/%v/%d/%d/%v/%d/%s", c.Mech, c.GM, c.Wrap, c.Strength, c.Pers, c.Reads, c.FailAt, c.FailKind)
+	return fmt.Sprintf("%s/%v/%v/%d/%d/%v/%d/%s/%v%v%d", c.Mech, c.GM, c.Wrap, c.Strength, c.Pers, c.Reads, c.FailAt, c.FailKind, c.Scribble, c.Spare, c.PersZ)
 }
 
 func newLibPRNG(m mechSpec, gm, wrap bool, src io.Reader, strength int, pers []byte) (*drbg.DrbgPrng, error) {
@@ -270,7 +274,18 @@ func checkPRNG(c prngCase, r *h.Rec) error {
 	// library
 	start := time.Now() // GM mode only: see the clock guard below
 	src := &scriptedReader{seed: c.Seed, failAt: c.FailAt, kind: c.FailKind}
-	p, err := newLibPRNG(m, c.GM, c.Wrap, src, c.Strength, pers)
+	persA := mkArg(pers, c.PersZ, c.Spare)
+	p, err := newLibPRNG(m, c.GM, c.Wrap, src, c.Strength, persA.s)
+	if cerr := persA.check("constructor (personalisation)"); cerr != nil {
+		return cerr
+	}
+	if c.Scribble {
+		persA.scribble(1)
+		r.Label("scribble-after-every-call")
+	}
+	if c.Spare {
+		r.Label("spare-capacity")
+	}
 	if (err != nil) != !mok {
 		return fmt.Errorf("constructor(strength %d, fault %s at entropy call %d): library error %v, model ok=%v", c.Strength, c.FailKind, c.FailAt, err, mok)
 	}
@@ -291,14 +306,14 @@ func checkPRNG(c prngCase, r *h.Rec) error {
 	}
 	for i, n := range c.Reads {
 		w := want[i]
-		can := gen.NewCanary(n, 32, 0x3C)
-		buf := can.B()
-		for j := range buf {
-			buf[j] = sentinel
-		}
+		ob := mkOut(n, (i+c.PersZ)%3, c.Spare)
+		buf := ob.b
 		k, err := p.Read(buf)
-		if cerr := can.Check(); cerr != nil {
+		if cerr := ob.check(); cerr != nil {
 			return fmt.Errorf("read %d (%d bytes): %v", i, n, cerr)
+		}
+		if n == 0 {
+			r.Label("read-0-" + zNames[(i+c.PersZ)%3])
 		}
 		if err != nil && !w.faulted {
 			// The wrapper's contract: an error only when the entropy source
@@ -332,6 +347,9 @@ func checkPRNG(c prngCase, r *h.Rec) error {
 			}
 			return fmt.Errorf("read %d: entropy source was asked for %v, model %v (strength %d)", i, src.calls, mp.calls[:w.calls], mp.strength)
 		}
+		if c.Scribble {
+			ob.scribble(uint64(i))
+		}
 	}
 	return nil
 }
@@ -358,6 +376,9 @@ func TestC17_Prng(t *testing.T) {
 		}
 		c.Pers = rapid.SampledFrom([]int{0, 0, 5, 32}).Draw(t, "pers")
 		c.Seed = rapid.Uint64().Draw(t, "seed")
+		c.Scribble = !chance(t, "noScribble", 25)
+		c.Spare = rapid.Bool().Draw(t, "spare")
+		c.PersZ = rapid.IntRange(0, 2).Draw(t, "persZero")
 		sizes := readSizes(m, gm)
 		n := rapid.IntRange(1, 12).Draw(t, "reads")
 		n = 13 - n // mostly many reads
@@ -405,10 +426,14 @@ func TestC17_PrngFaults(t *testing.T) {
 					mp.read(n)
 				}
 				emit(base)
+				scr := base
+				scr.Scribble, scr.Spare = true, true
+				emit(scr)
 				for i := 0; i < len(mp.calls); i++ {
 					for j, k := range faultKinds {
 						c := base
 						c.FailAt, c.FailKind, c.Wrap = i, k, (i+j)%2 == 0
+						c.Scribble, c.Spare, c.PersZ = (i+j)%4 != 0, j%2 == 0, (i+j)%3
 						emit(c)
 					}
 				}
